@@ -292,7 +292,12 @@ def judge_mpe(ctx, case, model_s, site="FDD_mpe"):
                 midx, mfn, mphi = mres[i]
                 los, his = nearest_set(freq, f - case["DF"]), nearest_set(freq, f + case["DF"])
                 nontriv = nontriv or (his[0] - los[0] >= 2)
-                if Fraction(float(Fn[i])) != mfn or idx != midx:
+                if (Fraction(float(Fn[i])) != mfn or idx != midx) and 0 <= midx < len(ratio) and ratio[idx] == ratio[midx] and ok and judged:
+                    # two lines of the band carry EXACTLY the same, largest ratio: the model pins the first (what the present code does), the
+                    # property only asks for a line where the ratio is largest - the oracle above has just confirmed that
+                    ctx.not_judged += 1
+                    ctx.hist("exact tie of the largest ratio: another maximiser than the model's", site)
+                elif Fraction(float(Fn[i])) != mfn or idx != midx:
                     ctx.fail("correspondence", "%s: Fn=%r (line %d), model: line %d" % (site, float(Fn[i]), idx, midx), dict(small, i=i),
                              key="C06:%s:corr-fn" % site)
                 elif amax_ambiguous(v):
